@@ -224,6 +224,15 @@ def gen_args(rng: random.Random, entries: dict[str, Any]) -> list[str]:
             args.append(base + rng.choice(["*.md", "**/*.md", "*/*.md", "*.m*", "**/*"]))
     if not args:
         args = ["."]
+    # overlapping arguments: a directory together with one of its sub-directories (either order)
+    if rng.random() < 0.2:
+        nested = [d for d in ok_dirs if "/" in d or True]
+        if nested:
+            inner = rng.choice(nested)
+            outer = os.path.dirname(inner) or "."
+            pair = [outer, inner]
+            rng.shuffle(pair)
+            args = (args + pair)[-4:]
     return args
 
 
